@@ -21,7 +21,19 @@
 //!   `turmoil::Sim`: the ops are executed by host software (an interpreter of
 //!   ops sent as data through a mailbox; the controller steps the Sim until
 //!   the answer is there), the crash is `Sim::crash` + `Sim::bounce`, and the
-//!   post-crash observation is made by the restarted software.
+//!   post-crash observation is made by the restarted software.  The
+//!   lifecycle of the crashed host's software is a generated dimension
+//!   (`Scenario::life`, one code per crash): still running (parked waiting for
+//!   the next op) | it has performed its ops and RETURNED `Ok(())`, and the Sim
+//!   was stepped so that the runtime collected the result
+//!   (`Sim::is_host_running` false) before `Sim::crash` is called; `Sim::crash`
+//!   called once | twice before the bounce (the second time on a host that is
+//!   already down); 0-2 further steps between the return and the crash, 0-1
+//!   steps while the host is down.  The property is stated for the HOST ("after
+//!   a host crash its simulated filesystem contains exactly the durable image"),
+//!   and so is the rustdoc of `Sim::crash` ("this discards any pending
+//!   (unsynced) writes"); neither exempts a host whose software has finished,
+//!   so the expectation is the same durable image in every one of these cases.
 //!
 //! * sub-check `handles` (+ `sim-handles`): a bounded-exhaustive family of
 //!   histories with two handles open on one file at the same time — every
@@ -129,6 +141,58 @@ pub struct Scenario {
     /// set for probe scenarios: failure signatures get the prefix `probe:<name>:`
     #[serde(default)]
     pub probe: Option<String>,
+    /// Sim-backed sub-checks only: lifecycle of the crashed host's software at
+    /// the moment `Sim::crash` is called, one code per crash (mode `Prefixes`:
+    /// the crash after prefix k uses `life[k % len]`; mode `Cycles`: the k-th
+    /// crash uses `life[k % len]`); empty = the software is always still
+    /// running.  See [`Life`].
+    #[serde(default)]
+    pub life: Vec<u8>,
+}
+
+/// Number of lifecycle codes (see [`Life::decode`]).
+pub const NLIFE: u8 = 24;
+
+/// State of the host software when `Sim::crash` hits it (Sim-backed sub-checks).
+/// The property ("after a host crash its simulated filesystem contains exactly
+/// the durable image") and the rustdoc of `Sim::crash` ("this discards any
+/// pending (unsynced) writes. Data that was synced via sync_all() survives the
+/// crash") are stated for the HOST, whatever its software is doing: parked
+/// waiting for work, already returned `Ok(())` (a host that did its batch of
+/// filesystem work and finished), or already down from an earlier crash.
+#[derive(Clone, Copy, Debug, PartialEq, Eq)]
+struct Life {
+    /// the software performs the ops up to the crash point and then RETURNS
+    /// `Ok(())`; the Sim is stepped until the runtime has collected the result
+    /// (`Sim::is_host_running` false) before `Sim::crash` is called
+    finished: bool,
+    /// `Sim::crash` is called a second time on the host that is already down
+    /// (no bounce in between)
+    twice: bool,
+    /// additional steps of the Sim between the software's return and the crash
+    gap: u8,
+    /// steps of the Sim while the host is down (between crash and bounce)
+    down: u8,
+}
+
+impl Life {
+    fn decode(v: u8) -> Life {
+        let v = v % NLIFE;
+        Life {
+            finished: v & 1 == 1,
+            twice: v & 2 == 2,
+            gap: (v / 4) % 3,
+            down: v / 12,
+        }
+    }
+    fn name(&self) -> &'static str {
+        match (self.finished, self.twice) {
+            (false, false) => "software-still-running",
+            (true, false) => "software-returned-ok-before-the-crash",
+            (false, true) => "software-still-running,crashed-twice-before-the-bounce",
+            (true, true) => "software-returned-ok-before-the-crash,crashed-twice-before-the-bounce",
+        }
+    }
 }
 
 fn fs_config(sc: &Scenario) -> FsConfig {
@@ -150,6 +214,8 @@ enum Req {
     Scan,
     CloseSlot(usize),
     SeekSlot(usize, u64),
+    /// the software returns `Ok(())` (everything it holds is dropped)
+    Exit,
 }
 enum Resp {
     Exec(Result<Res, (io::ErrorKind, String)>),
@@ -169,7 +235,9 @@ struct Mailbox {
 }
 
 /// Host software: an interpreter of requests sent as data.  Everything it
-/// holds (handles, ring) dies with it at a crash.
+/// holds (handles, ring) dies with it at a crash — or when it is told to
+/// finish (`Req::Exit`): it then returns `Ok(())` like any host whose work is
+/// done, and the host stays up with no software running on it.
 async fn sim_program(mb: Rc<Mailbox>) -> turmoil::Result {
     let mut rh = RealHost::new(Host::ambient());
     mb.starts.set(mb.starts.get() + 1);
@@ -191,6 +259,13 @@ async fn sim_program(mb: Rc<Mailbox>) -> turmoil::Result {
                     rh.seek_slot(s, pos);
                     Resp::Unit
                 }
+                Req::Exit => {
+                    drop(rh);
+                    *mb.slots.borrow_mut() = [false; NSLOTS];
+                    mb.served.set(mb.served.get() + 1);
+                    *mb.resp.borrow_mut() = Some(Resp::Unit);
+                    return Ok(());
+                }
             };
             let mut sl = [false; NSLOTS];
             for (i, h) in rh.handles.iter().enumerate() {
@@ -209,6 +284,11 @@ struct SimShared {
     /// a step of the Sim failed (reported once)
     error: RefCell<Option<String>>,
     steps: Cell<u64>,
+    /// lifecycle code of the next crash (set by the chain before `crash()`)
+    next_life: Cell<u8>,
+    /// what the last crash found: `Sim::is_host_running` just before the
+    /// first `Sim::crash`, and after the bounce
+    last_crash: Cell<(bool, bool)>,
 }
 
 struct SimBackend {
@@ -218,6 +298,16 @@ struct SimBackend {
 }
 
 impl SimBackend {
+    fn step_n(&mut self, n: usize) {
+        for _ in 0..n {
+            if let Err(e) = self.sh.sim.borrow_mut().step() {
+                *self.sh.error.borrow_mut() = Some(format!("{e}"));
+                break;
+            }
+            self.sh.steps.set(self.sh.steps.get() + 1);
+        }
+    }
+
     fn call(&mut self, req: Req) -> Resp {
         *self.mb.resp.borrow_mut() = None;
         *self.mb.req.borrow_mut() = Some(req);
@@ -275,9 +365,31 @@ impl RealBackend for SimBackend {
         self.call(Req::SeekSlot(slot, pos));
     }
     fn crash(&mut self) {
+        let life = Life::decode(self.sh.next_life.get());
+        if life.finished {
+            // the software has done its batch of work: it returns Ok(()); the
+            // step in which it does so lets the runtime collect the result
+            self.call(Req::Exit);
+            self.step_n(life.gap as usize);
+            // (bounded) until the host is reported as not running
+            for _ in 0..5 {
+                if !self.sh.sim.borrow_mut().is_host_running(self.name) {
+                    break;
+                }
+                self.step_n(1);
+            }
+        }
+        let running_before = self.sh.sim.borrow_mut().is_host_running(self.name);
+        self.sh.sim.borrow_mut().crash(self.name);
+        self.step_n(life.down as usize);
+        if life.twice {
+            self.sh.sim.borrow_mut().crash(self.name);
+            self.step_n(life.down as usize);
+        }
         let mut sim = self.sh.sim.borrow_mut();
-        sim.crash(self.name);
         sim.bounce(self.name);
+        let running_after = sim.is_host_running(self.name);
+        self.sh.last_crash.set((running_before, running_after));
         *self.mb.req.borrow_mut() = None;
         *self.mb.resp.borrow_mut() = None;
         *self.mb.slots.borrow_mut() = [false; NSLOTS];
@@ -302,6 +414,8 @@ fn sim_hosts(sc: &Scenario) -> (Vec<HostState>, Rc<SimShared>, Vec<Rc<Mailbox>>)
         sim: RefCell::new(sim),
         error: RefCell::new(None),
         steps: Cell::new(0),
+        next_life: Cell::new(0),
+        last_crash: Cell::new((true, true)),
     });
     let hosts = ["h0", "h1"]
         .into_iter()
@@ -707,14 +821,24 @@ impl<'a> Chain<'a> {
 
     /// Crash host `h`, observe, verify.  `continue_after`: rebase the model on
     /// the observed tree so that the history can go on.
-    fn crash_and_verify(&mut self, h: usize, at: usize, continue_after: bool) -> bool {
+    fn crash_and_verify(&mut self, h: usize, at: usize, continue_after: bool, life_idx: usize) -> bool {
         self.crashes += 1;
         let bg = self.sc.sync_pct > 0;
         let block = self.sc.block as u64;
+        // lifecycle of the host software at the crash (Sim-backed runs only)
+        let life = match (&self.sim, self.sc.life.is_empty()) {
+            (Some(_), false) => Some(Life::decode(self.sc.life[life_idx % self.sc.life.len()])),
+            (Some(_), true) => Some(Life::decode(0)),
+            (None, _) => None,
+        };
         let ctx = format!(
-            "crash of host {h} after op #{} ({})",
+            "crash of host {h} after op #{} ({}){}",
             at.saturating_sub(1),
-            self.sc.ops.get(at.saturating_sub(1)).map(|s| fh::describe(&fh::concretize(&self.run.hosts[h].model, &s.op))).unwrap_or_default()
+            self.sc.ops.get(at.saturating_sub(1)).map(|s| fh::describe(&fh::concretize(&self.run.hosts[h].model, &s.op))).unwrap_or_default(),
+            match life {
+                Some(l) => format!(" [Sim::crash, {}; {} extra steps before the crash, {} steps down]", l.name(), l.gap, l.down),
+                None => String::new(),
+            }
         );
         // ---- expectation (before the crash: the model state is consumed by it)
         let hs = &self.run.hosts[h];
@@ -774,7 +898,31 @@ impl<'a> Chain<'a> {
             .collect();
 
         // ---- the fault
+        if let Some(sh) = &self.sim {
+            sh.next_life.set(if self.sc.life.is_empty() { 0 } else { self.sc.life[life_idx % self.sc.life.len()] });
+        }
         self.run.hosts[h].real.crash();
+        let mut finished_host_crashed = false;
+        if let (Some(sh), Some(l)) = (&self.sim, life) {
+            let (running_before, _running_after) = sh.last_crash.get();
+            self.run.out.label(format!("sim-crash:{}", l.name()));
+            if l.finished {
+                if running_before {
+                    // the class was not reached (never seen): counted, not a
+                    // C07 clause
+                    self.run.out.count("sim-crash: software returned but the host was still reported running", 1);
+                } else {
+                    finished_host_crashed = true;
+                    self.run.out.count("sim-crash: crashes of a host whose software had returned Ok(()) (is_host_running false)", 1);
+                }
+            }
+            if l.twice {
+                self.run.out.count("sim-crash: crashes issued twice before the bounce", 1);
+            }
+            if l.down > 0 {
+                self.run.out.label("sim-crash:steps-while-the-host-is-down");
+            }
+        }
         let obs = self.run.hosts[h].real.scan();
         if let Some(e) = self.sim_error() {
             self.fail("sim: step failed or host software stopped answering".into(), format!("{ctx}: {e}"));
@@ -929,6 +1077,13 @@ impl<'a> Chain<'a> {
         }
         if n_rolled_back > 0 {
             self.run.out.label("crash-rolled-something-back");
+            if finished_host_crashed {
+                self.run.out.label("sim-crash:finished-host-had-something-to-roll-back");
+                self.run.out.count("sim-crash: crashes of a finished host that had to roll something back", 1);
+            }
+            if self.crashes > 1 && finished_host_crashed {
+                self.run.out.label("sim-crash:finished-host-in-a-later-cycle-had-something-to-roll-back");
+            }
         }
         self.run.out.count("post-crash comparisons skipped (taint)", skipped_taint);
         for id in excl {
@@ -1016,7 +1171,7 @@ fn tree_from_obs(obs: &[(bool, Seen)]) -> Option<Tree> {
     Some(t)
 }
 
-fn run_chain(sc: &Scenario, points: &[usize], sim: bool, agg: &mut Outcome) -> bool {
+fn run_chain(sc: &Scenario, points: &[usize], sim: bool, life_base: usize, agg: &mut Outcome) -> bool {
     let c10sc = c10::Scenario {
         ops: Vec::new(),
         scan_every: 255,
@@ -1055,7 +1210,7 @@ fn run_chain(sc: &Scenario, points: &[usize], sim: bool, agg: &mut Outcome) -> b
         pos = cp;
         let h = if cp == 0 { 0 } else { (sc.ops[cp - 1].host as usize) % 2 };
         let more = k + 1 < points.len();
-        if !ch.crash_and_verify(h, cp, more) {
+        if !ch.crash_and_verify(h, cp, more, life_base + k) {
             ok = ch.run.out.failure.is_none();
             break;
         }
@@ -1095,7 +1250,7 @@ fn run_mode(sc: &Scenario, sim: bool) -> Outcome {
     match &sc.mode {
         Mode::Prefixes => {
             for k in 1..=sc.ops.len() {
-                if !run_chain(sc, &[k], sim, &mut out) && out.failure.is_some() {
+                if !run_chain(sc, &[k], sim, k, &mut out) && out.failure.is_some() {
                     break;
                 }
             }
@@ -1103,7 +1258,7 @@ fn run_mode(sc: &Scenario, sim: bool) -> Outcome {
         }
         Mode::Cycles(points) => {
             let pts: Vec<usize> = points.iter().map(|p| *p as usize).collect();
-            run_chain(sc, &pts, sim, &mut out);
+            run_chain(sc, &pts, sim, 0, &mut out);
             out.label(format!("mode:{}-crash-cycles", pts.len()));
         }
     }
@@ -1284,6 +1439,20 @@ fn prologue(kind: u8, host: u8) -> Vec<Step> {
     v
 }
 
+/// Lifecycle codes of the crashed host's software, one per crash (cycled):
+/// still running / returned Ok(()) before the crash, crashed once / twice
+/// before the bounce, 0-2 extra steps between the return and the crash, 0-1
+/// steps while the host is down.  Only the Sim-backed sub-checks read them.
+fn life_strategy() -> impl Strategy<Value = Vec<u8>> {
+    let one = (
+        prop_oneof![3 => Just(0u8), 5 => Just(1u8), 1 => Just(2u8), 2 => Just(3u8)],
+        prop_oneof![3 => Just(0u8), 1 => Just(1u8), 1 => Just(2u8)],
+        prop_oneof![3 => Just(0u8), 1 => Just(1u8)],
+    )
+        .prop_map(|(kind, gap, down)| kind + 4 * gap + 12 * down);
+    proptest::collection::vec(one, 1..5)
+}
+
 fn config_strategy() -> impl Strategy<Value = (u8, u8, u64)> {
     (
         prop_oneof![3 => Just(0u8), 2 => Just(30u8)],
@@ -1299,8 +1468,9 @@ pub fn strategy_with(strict: u32, cycles: bool, max_ops: usize) -> BoxedStrategy
         proptest::collection::vec(step_strategy(), 2..max_ops),
         config_strategy(),
         proptest::collection::vec(0u16..u16::MAX, 2..4),
+        life_strategy(),
     )
-        .prop_map(move |(p0, p1, mut ops, (sync_pct, block, seed), cuts)| {
+        .prop_map(move |(p0, p1, mut ops, (sync_pct, block, seed), cuts, life)| {
             let mut pre = prologue(p0, 0);
             if p1 > 0 {
                 pre.extend(prologue(p1, 1));
@@ -1324,6 +1494,7 @@ pub fn strategy_with(strict: u32, cycles: bool, max_ops: usize) -> BoxedStrategy
                 mode,
                 strict,
                 probe: None,
+                life,
             }
         })
         .boxed()
@@ -1337,6 +1508,10 @@ pub fn strategy() -> BoxedStrategy<Scenario> {
 pub fn fuzz_sanitize(sc: &mut Scenario) -> bool {
     sc.strict = 0;
     sc.probe = None;
+    sc.life.truncate(4);
+    for v in sc.life.iter_mut() {
+        *v %= NLIFE;
+    }
     sc.sync_pct = [0u8, 0, 0, 30, 30][(sc.sync_pct % 5) as usize];
     sc.block = [0u8, 0, 0, 2, 3][(sc.block % 5) as usize];
     let kind = (sc.seed >> 32) as u8 % NPROLOGUES;
@@ -1472,6 +1647,7 @@ pub fn handle_family() -> Vec<Scenario> {
             mode: Mode::Prefixes,
             strict: 0,
             probe: None,
+            life: Vec::new(),
         });
     }
     v
@@ -1494,6 +1670,7 @@ pub fn probes() -> Vec<(bool, Scenario)> {
         mode: Mode::Prefixes,
         strict: u32::MAX,
         probe: Some(name.to_string()),
+        life: Vec::new(),
     };
     // path indices: 0 "/", 1 /d0, 2 /d1, 4 /f0, 6 /d0/a, 8 /d1/a
     let setup = || {
@@ -1593,7 +1770,20 @@ fn check(tier: Tier, seed: u64) -> i32 {
         // inside a Sim: every 11th member in the quick tier (11 is coprime to every
         // dimension of the family, so all values of all dimensions are sampled), all in thorough
         let stride = tier.pick(11usize, 1usize);
-        let simfam: Vec<Scenario> = fam.iter().enumerate().filter(|(i, _)| (i + seed as usize) % stride == 0).map(|(_, s)| s.clone()).collect();
+        // the lifecycle of the crashed host's software rotates over the prefixes
+        // of each member (still running | returned Ok(()) before the crash) x
+        // (crashed once | twice before the bounce), the rotation offset by the
+        // member's index
+        let simfam: Vec<Scenario> = fam
+            .iter()
+            .enumerate()
+            .filter(|(i, _)| (i + seed as usize) % stride == 0)
+            .map(|(i, s)| {
+                let mut s = s.clone();
+                s.life = (0..4).map(|j| ((i / stride + j) % 4) as u8).collect();
+                s
+            })
+            .collect();
         if want("handles") {
             ctx.exhaustive(
                 "handles",
@@ -1605,7 +1795,7 @@ fn check(tier: Tier, seed: u64) -> i32 {
         if want("sim-handles") {
             ctx.exhaustive(
                 "sim-handles",
-                &format!("{} members of the `handles` family (every {stride}th, offset by the seed) inside a running turmoil::Sim (Sim::crash + Sim::bounce after every prefix)", simfam.len()),
+                &format!("{} members of the `handles` family (every {stride}th, offset by the seed) inside a running turmoil::Sim (Sim::crash + Sim::bounce after every prefix; the lifecycle of the crashed software rotates over the prefixes: still running | returned Ok(()) and collected before the crash, crashed once | twice before the bounce)", simfam.len()),
                 Box::new(simfam.into_iter()),
                 &run_sim,
             );
@@ -1624,7 +1814,7 @@ fn check(tier: Tier, seed: u64) -> i32 {
         ctx.random("sim-cycles", tier.pick(1_000, 12_000), &move || strategy_with(strict, true, 24), &run_sim);
     }
     ctx.finish(
-        "random histories (prologue of 2-12 ops per host + up to 17 / 29 generated ops over the 13-path universe of C10, two hosts = two independent trees; create, create_new, open with truncate / append, read-only / write-only / append-only opens, additional handles of every access mode on a file that is already open (up to 4 handles per host), write_at, cursor write and append, set_len, sync_all, sync_data, io_uring fsync through ANY open handle of the file whatever its access mode (a data sync is per file: it makes durable what was written through every handle), sync_dir, rename incl. onto existing names and across directories, remove_file, create_dir, remove_dir, fs::write; std shim, tokio shim and io_uring mixed) under a configuration sync_probability in {0, 0.3} x block_size in {None, 2, 3} x Fs seed. Sub `handles` (bounded-exhaustive) / `sim-handles`: the two-handle family described under exhaustive_subspaces, a crash after every prefix. Sub `prefixes`: a crash (Fs::crash + IoUringHostState::crash, as Sim::crash does) after EVERY prefix of every history, each prefix re-executed from scratch on fresh hosts; sub `cycles`: one linear execution with 2-3 crash-continue-crash cycles; subs `sim` / `sim-cycles`: the same inside a running turmoil::Sim, ops executed by host software (an interpreter of ops sent as data), crash = Sim::crash + Sim::bounce, the post-crash observation made by the restarted software. Before the crash the C10 lock-step oracle applies to every op; after the crash exists / metadata / read / read_dir over the whole universe is compared with the two-level durability model (data-durable content per inode, durable entry map per directory; admissible sets for background sync and torn writes enumerated), and the other host must still show its current view. Non-trivial = a crashed prefix contains a durable and a non-durable mutation of the same untainted, asserted file or directory. Distinct by scenario hash.",
+        "random histories (prologue of 2-12 ops per host + up to 17 / 29 generated ops over the 13-path universe of C10, two hosts = two independent trees; create, create_new, open with truncate / append, read-only / write-only / append-only opens, additional handles of every access mode on a file that is already open (up to 4 handles per host), write_at, cursor write and append, set_len, sync_all, sync_data, io_uring fsync through ANY open handle of the file whatever its access mode (a data sync is per file: it makes durable what was written through every handle), sync_dir, rename incl. onto existing names and across directories, remove_file, create_dir, remove_dir, fs::write; std shim, tokio shim and io_uring mixed) under a configuration sync_probability in {0, 0.3} x block_size in {None, 2, 3} x Fs seed. Sub `handles` (bounded-exhaustive) / `sim-handles`: the two-handle family described under exhaustive_subspaces, a crash after every prefix. Sub `prefixes`: a crash (Fs::crash + IoUringHostState::crash, as Sim::crash does) after EVERY prefix of every history, each prefix re-executed from scratch on fresh hosts; sub `cycles`: one linear execution with 2-3 crash-continue-crash cycles; subs `sim` / `sim-cycles`: the same inside a running turmoil::Sim, ops executed by host software (an interpreter of ops sent as data), crash = Sim::crash + Sim::bounce, the post-crash observation made by the restarted software; per crash a generated lifecycle of the crashed host's software: still parked waiting for work | it has RETURNED Ok(()) after its ops and the Sim was stepped until the runtime collected the result (Sim::is_host_running false) before Sim::crash, 0-2 further steps in between; Sim::crash called once | twice (second time on the host that is already down) before the bounce; 0-1 steps while the host is down — the expected image is the same in all of them (the property and the rustdoc of Sim::crash speak of the host, not of its software). Before the crash the C10 lock-step oracle applies to every op; after the crash exists / metadata / read / read_dir over the whole universe is compared with the two-level durability model (data-durable content per inode, durable entry map per directory; admissible sets for background sync and torn writes enumerated), and the other host must still show its current view. Non-trivial = a crashed prefix contains a durable and a non-durable mutation of the same untainted, asserted file or directory. Distinct by scenario hash.",
         &[
             "io_error / corruption / short_read probabilities 0, io_latency None, no capacity limit, no page cache",
             "asserted only for files and directories all of whose ancestor directories exist durably; everything strictly below a directory that was removed and created again since the last crash, and below a directory whose durable and current incarnation differ, is a dangling subtree and not asserted",
